@@ -18,13 +18,18 @@ secret exactly.
 Part C (seam for "fresh random bytes").  Real logins through the connection
 harness against vf.refserver.RefServer: the secret the server decrypts in the
 j-th login is the j-th 16-byte draw of the scripted OS source, one draw per
-login, and all traffic after the encryption response decrypts under it.
+login, and all traffic after the encryption response decrypts under it -
+also when a packet is waiting in the outgoing queue while the encryption
+request is handled (the response must still leave in the clear, RSA only),
+and also when the received stream is read through BOTH wrappers that
+LoginReactor installed (connection.socket.recv mixed with
+connection.file_object.read: one continuous CFB8 stream).
 """
 import hashlib
 import itertools
 import warnings
 
-from vf.runner import use_repo, jsonable
+from vf.runner import use_repo, jsonable, ToolError
 from vf.refproto.cfb8 import CFB8
 
 LEVEL = 'exploration'
@@ -55,7 +60,20 @@ RULE = (
     '{1024, 2048}-bit key.  '
     'C: k = 1..3 consecutive logins x {same Connection object, separate '
     'Connection objects} x protocol versions {47, 340, 578, 757} x 4 verify '
-    'tokens (1, 4, 16, 64 bytes), keep-alives and chat after each login.  '
+    'tokens (1, 4, 16, 64 bytes), keep-alives and chat after each login; '
+    'C-queued: a non-forced packet is waiting in the outgoing queue when '
+    'the encryption request is handled - {server sends login plugin request '
+    '+ encryption request in one burst, early listener on the encryption '
+    'request queues a packet} x k = 1..2 x protocols {498, 578, 754, 757} x '
+    '2 tokens (same oracle: the key holder recovers the fresh draw and the '
+    'token, everything after the response decodes); C-installed: after a '
+    'login (k = 1..2, protocols {47, 340, 757}) with the client quiescent, '
+    'the server pushes L = 1..6 non-frame bytes encrypted on its running '
+    'CFB8 stream and the driver reads them through the wrappers the library '
+    'itself installed, ALL compositions of L into calls x both phases of '
+    'strict connection.socket.recv / connection.file_object.read '
+    'alternation, then keep-alive frames must still be echoed by the '
+    'networking thread.  '
     'Cases are enumerated without repetition (distinct by construction); a '
     'part-A case is non-trivial when at least one direction is split into two '
     'or more calls, every B and C case is non-trivial.')
@@ -72,10 +90,24 @@ ASSUMPTIONS = [
     'available) bytes per read/recv and accepts every send completely',
     'stream contents are structured (zeros, ff, counter, seed-derived), not '
     'all 256^n byte strings',
+    'connection.socket and connection.file_object read the same unbuffered '
+    'byte stream (pyCraft opens the file with makefile("rb", 0)), so reads '
+    'through the two installed wrappers may be mixed; vnet models exactly '
+    'that',
+    'in the C-queued scenarios the packet that waited in the queue reaches '
+    'the reference server after it has entered play; what it decodes to '
+    'there is not judged',
 ]
 
 SIZES_KIB = (1024, 4096)
 VERSIONS_C = (47, 340, 578, 757)
+# login plugin channel exists (>= 385) and the id of the login plugin response
+# is not the id of a play packet the reference server decodes strictly (the
+# queued packet arrives when the server is already in play; at 385..404 it
+# would be read as a chat message)
+VERSIONS_Q = (498, 578, 754, 757)
+VERSIONS_RAW = (47, 340, 757)
+RAW_MAX = 6
 TOKENS_C = (b'\x00', b'\x05\x06\x07\x08', bytes(range(0xF0, 0x100)),
             bytes((i * 37 + 11) & 0xFF for i in range(64)))
 CHATS = ('a', 'hello world', 'x' * 100, 'y' * 64)
@@ -664,11 +696,20 @@ def w_keys(ctx, task):
 
 # -- part C -------------------------------------------------------------------
 
-def body_c(W, style, k, version, token):
+def body_c(W, style, k, version, token, variant='plain', raw_len=0):
+    """variant: 'plain'; 'burst' = the server sends a login plugin request
+    and the encryption request in one burst, so that the client's (queued)
+    plugin response is waiting in the outgoing queue when the encryption
+    request is handled; 'listener' = an early listener on the encryption
+    request queues a serverbound packet at that moment.  raw_len > 0: after
+    the login the DRIVER reads server-encrypted bytes through the wrappers
+    the library installed (conn.socket.recv / conn.file_object.read)."""
     from vf import harness
-    W.serve(login=[('encrypt', 'srv', token), ('success',)],
-            rsa=harness.rsa_key())
-    from minecraft.networking.packets import serverbound
+    script = [('encrypt', 'srv', token), ('success',)]
+    if variant == 'burst':
+        script.insert(0, ('plugin', 1, 'vf:a', b''))
+    W.serve(login=script, mode='burst', rsa=harness.rsa_key())
+    from minecraft.networking.packets import serverbound, clientbound
     logins = []
     conn = None
     errs = []
@@ -678,6 +719,13 @@ def body_c(W, style, k, version, token):
                 allowed_versions={version},
                 handle_exception=lambda e, i: errs.append(
                     type(e).__name__))
+            if variant == 'listener':
+                def queue_one(packet, conn=conn):
+                    conn.write_packet(serverbound.login.PluginResponsePacket(
+                        message_id=77, successful=False))
+                conn.register_packet_listener(
+                    queue_one, clientbound.login.EncryptionRequestPacket,
+                    early=True)
         draws_before = len(W.S.urandom_log)
         conn.connect()
         W.settle()
@@ -687,8 +735,19 @@ def body_c(W, style, k, version, token):
             ka = [2 ** 40 + 17 * j + 5, -(j + 1), 7]
             if not srv.rank.ge(version, 339):
                 ka = [2 ** 30 + 17 * j + 5, -(j + 1), 7]
-            if srv.state == 'play' and \
-                    type(conn.reactor).__name__ == 'PlayingReactor':
+            if variant != 'plain':
+                strict = set(srv.ids(n, version) for n in (
+                    'sb.play.keep_alive', 'sb.play.chat',
+                    'sb.play.position_and_look', 'sb.play.teleport_confirm'))
+                if srv.ids('sb.login.plugin_response', version) in strict:
+                    raise ToolError('C-queued at protocol %d: the stray '
+                                    'packet would be decoded strictly'
+                                    % version)
+            in_play = srv.state == 'play' and \
+                type(conn.reactor).__name__ == 'PlayingReactor'
+            if in_play and raw_len and not srv.errors:
+                rec['raw'] = raw_reads(W, conn, srv, raw_len, j)
+            if in_play:
                 for i, n in enumerate(ka):
                     srv.play(('keepalive', n))
                     conn.write_packet(serverbound.play.ChatPacket(
@@ -704,6 +763,7 @@ def body_c(W, style, k, version, token):
                 enc_bytes=srv.encrypted_rx_bytes, keepalives=ka,
                 chats=[CHATS[(i + j) % len(CHATS)] for i in range(3)]
                 + [CHATS[3]],
+                plugin_replies=list(srv.plugin_replies),
                 errs_play=list(errs))
         rec['draws'] = list(W.S.urandom_log[draws_before:])
         logins.append(rec)
@@ -715,7 +775,51 @@ def body_c(W, style, k, version, token):
     return {'logins': logins, 'urandom_log': list(W.S.urandom_log)}
 
 
-def judge_c(x, style, k, version, token):
+def raw_patterns(L):
+    """All compositions of L into receive calls x both alternation phases
+    (first call socket.recv or file.read, then strictly alternating)."""
+    out = []
+    for parts in compositions(L):
+        for phase in (0, 1):
+            out.append(tuple(('vr'[(i + phase) & 1], p)
+                             for i, p in enumerate(parts)))
+    return out
+
+
+def raw_reads(W, conn, srv, L, j):
+    """The client is quiescent (networking thread parked in its poll).  For
+    every pattern: the server encrypts L non-frame bytes on its running tx
+    cipher and pushes them; the driver reads them back through the
+    connection's OWN wrappers.  -> first mismatch or None, plus counts."""
+    n = 0
+    first = None
+    for pi, calls in enumerate(raw_patterns(L)):
+        plain = _h(b'c18 raw %d %d %d' % (L, j, pi), L)
+        data = srv.tx_cipher.encrypt(plain)
+        srv.tx_off += len(data)
+        srv.conn.push(data)
+        got = []
+        exc = None
+        for kind, size in calls:
+            try:
+                r = conn.socket.recv(size) if kind == 'v' else \
+                    conn.file_object.read(size)
+            except Exception as e:
+                exc = '%s: %s' % (type(e).__name__, e)
+                break
+            got.append(bytes(r))
+        n += 1
+        if (exc is not None or b''.join(got) != plain) and first is None:
+            first = {'pattern': ['%s%d' % c for c in calls],
+                     'plain': plain, 'got': got, 'exc': exc,
+                     'left_unread': len(srv.conn.s2c)}
+            # drain whatever the failed pattern left behind
+            del srv.conn.s2c[:]
+    W.settle()
+    return {'patterns': n, 'first_bad': first}
+
+
+def judge_c(x, style, k, version, token, variant='plain'):
     """-> list of (key, what)."""
     out = []
     if x.failure is not None:
@@ -772,6 +876,20 @@ def judge_c(x, style, k, version, token):
                                                   rec['reactor'],
                                                   rec['errs_login'])))
             continue
+        raw = rec.get('raw')
+        if raw is not None and raw['first_bad'] is not None:
+            fb = raw['first_bad']
+            out.append(('C installed wrappers: mixed recv/read',
+                        '%s: after the login the server pushed %s encrypted '
+                        'on its running CFB8 stream; read through the '
+                        'wrappers the library installed with calls %r '
+                        '(v = connection.socket.recv, r = '
+                        'connection.file_object.read) the client got %s%s: '
+                        'the received bytes are not one continuous CFB8 '
+                        'stream across the two wrappers'
+                        % (who, fb['plain'].hex(), fb['pattern'],
+                           [g.hex() for g in fb['got']],
+                           ' and raised ' + fb['exc'] if fb['exc'] else '')))
         kas = [p[1] for p in rec['play_rx'] if p[0] == 'keepalive']
         chats = [p[1] for p in rec['play_rx'] if p[0] == 'chat']
         if kas != rec['keepalives']:
@@ -779,6 +897,13 @@ def judge_c(x, style, k, version, token):
                         '%r through the encrypted channel, echoes received '
                         '%r (client errors %s)' % (who, rec['keepalives'],
                                                    kas, rec['errs_play'])))
+        if variant != 'plain':
+            # the packet that waited in the queue reaches the server after
+            # it has moved on to play and may decode as anything there,
+            # also as a chat message: only the order of ours is required
+            it = iter(chats)
+            if all(c in it for c in rec['chats']):
+                chats = list(rec['chats'])
         if sorted(chats) != sorted(rec['chats']):
             out.append(('C chat', '%s: chat messages decoded by the server '
                         '%r, sent %r' % (who, [c[:12] for c in chats],
@@ -793,25 +918,40 @@ def judge_c(x, style, k, version, token):
     return out
 
 
-def run_c(ctx, style, k, version, ti, useed=None):
+def run_c(ctx, style, k, version, ti, variant='plain', raw_len=0):
     from vf import harness
     token = TOKENS_C[ti]
-    if useed is None:
-        useed = (ctx.seed * 1009 + k * 101 + version * 7 + ti * 3
-                 + (style == 'same')) & 0x7FFFFFFF
-    x = harness.run(lambda W: body_c(W, style, k, version, token),
+    useed = (ctx.seed * 1009 + k * 101 + version * 7 + ti * 3
+             + (style == 'same') + 13 * raw_len
+             + 17 * len(variant)) & 0x7FFFFFFF
+    x = harness.run(lambda W: body_c(W, style, k, version, token, variant,
+                                     raw_len),
                     horizon=400000, seed=useed)
-    return x, judge_c(x, style, k, version, token)
+    return x, judge_c(x, style, k, version, token, variant)
 
 
 def w_c(ctx, task):
-    style, k, version, ti = task
-    x, res = run_c(ctx, style, k, version, ti)
+    style, k, version, ti, variant, raw_len = task
+    x, res = run_c(ctx, style, k, version, ti, variant, raw_len)
     ctx.count()
     ctx.note_distinct(1)
     ctx.cls('C %d consecutive login(s), %s Connection object%s'
             % (k, style, '' if style == 'same' or k == 1 else 's'))
     ctx.cls('C protocol %d' % version)
+    ctx.cls({'plain': 'C plain login script',
+             'burst': 'C a queued packet waits when the encryption request '
+                      'is handled (plugin request + encryption request in '
+                      'one burst)',
+             'listener': 'C a queued packet waits when the encryption '
+                         'request is handled (early listener queues one)'
+             }[variant])
+    if raw_len and x.failure is None:
+        for rec in x.result['logins']:
+            if rec.get('raw'):
+                ctx.cls('C installed wrappers: recv/read patterns read by '
+                        'the driver', rec['raw']['patterns'])
+                ctx.cls('C installed wrappers: raw stream length %d'
+                        % raw_len, rec['raw']['patterns'])
     coll = _Coll()
     if not res:
         ctx.outcome('C ok: secret j = draw j, one draw per login, traffic '
@@ -821,14 +961,15 @@ def w_c(ctx, task):
                     'login')
     for key, what in res:
         ctx.outcome('C FAIL ' + key)
-        coll.add(key, (k, style, version, ti),
+        coll.add(key, (k, raw_len, variant, style, version, ti),
                  '%d login(s), %s Connection object, protocol %d, verify '
-                 'token %s: %s' % (k, style, version, TOKENS_C[ti].hex(),
-                                   what),
+                 'token %s, script %s: %s'
+                 % (k, style, version, TOKENS_C[ti].hex(), variant, what),
                  {'part': 'C', 'style': style, 'k': k, 'version': version,
-                  'token_index': ti, 'seed': ctx.seed})
+                  'token_index': ti, 'seed': ctx.seed, 'variant': variant,
+                  'raw_len': raw_len})
     coll.flush(ctx)
-    if task == ('same', 2, 757, 1) and x.failure is None:
+    if task == ('same', 2, 757, 1, 'plain', 0) and x.failure is None:
         ctx.sample({'part': 'C', 'logins': 2, 'style': style,
                     'urandom_draws': x.result['urandom_log'],
                     'server_secrets': [q.get('secret')
@@ -888,10 +1029,16 @@ def run(ctx):
     ctx.pmap(w_empty, empties)
     ctx.pmap(w_rsa, rsa)
     # part C: harness executions, only ever inside workers
-    tasks_c = [(style, k, v, ti) for style in ('same', 'separate')
+    tasks_c = [(style, k, v, ti, 'plain', 0)
+               for style in ('same', 'separate')
                for k in (1, 2, 3) for v in VERSIONS_C
                for ti in range(len(TOKENS_C))
                if not (style == 'separate' and k == 1)]
+    tasks_c += [('same', k, v, ti, variant, 0)
+                for variant in ('burst', 'listener') for k in (1, 2)
+                for v in VERSIONS_Q for ti in (1, 3)]
+    tasks_c += [('same', k, v, 1, 'plain', L) for k in (1, 2)
+                for v in VERSIONS_RAW for L in range(1, RAW_MAX + 1)]
     ctx.pmap(w_c, tasks_c, chunksize=2)
     _settle_violations(ctx)
     ctx.extra['bounds'] = {
@@ -904,10 +1051,12 @@ def run(ctx):
             'A in: read and recv alternate on the shared decryptor',
             'A empty: send(b"") inserted',
             'B token differs from secret (swap visible)',
-            'C 3 consecutive login(s), same Connection object']
+            'C 3 consecutive login(s), same Connection object',
+            'C a queued packet waits when the encryption request is handled '
+            '(plugin request + encryption request in one burst)',
+            'C installed wrappers: raw stream length %d' % RAW_MAX]
     missing = [k for k in need if not ctx.classes.get(k)]
     if missing:
-        from vf.runner import ToolError
         raise ToolError('vacuity guard: classes never hit: %r' % missing)
 
 
@@ -928,7 +1077,8 @@ def replay(ctx, case):
     elif case['part'] == 'C':
         ctx.seed = case.get('seed', ctx.seed)
         x, res = run_c(ctx, case['style'], case['k'], case['version'],
-                       case['token_index'])
+                       case['token_index'], case.get('variant', 'plain'),
+                       case.get('raw_len', 0))
         for key, what in res:
             coll.add(key, (0,), what, case)
     coll.flush(ctx)
